@@ -451,9 +451,8 @@ Proof.
   assert (Hnz : forall o, (job_code o =? 0) = match o with Some _ => false | None => true end)
     by (intros [j|]; unfold job_code; [apply Z.eqb_neq; lia|reflexivity]).
   set (q1 := match new with Some t => wq_q st ++ [t] | None => wq_q st end).
-  destruct (negb (job_code new =? 0));
-    (destruct (wq_cur st + delta >=? wq_max st); [reflexivity|];
-     rewrite Hnz; destruct q1 as [|j q2]; reflexivity).
+  destruct (wq_cur st + delta >=? wq_max st); [reflexivity|].
+  rewrite Hnz; destruct q1 as [|j q2]; reflexivity.
 Qed.
 
 (* ---- MaskXOR / MaskByByte (internal/utils.go): the 64-bit key, the key index of the byte loop, the loop thresholds ---- *)
@@ -565,4 +564,37 @@ Proof.
   replace (Z.of_N num - 1) with (Z.of_N (num - 1)) by lia.
   rewrite Z.mod_small by (split; [lia|]; change (2 ^ 64) with (Z.of_N (2 ^ 64)); lia).
   rewrite <- of_N_land. lia.
+Qed.
+
+(* ---- option normalisation (option.go initServerOption / initClientOption): defaults of the limits, the window-bit range
+   and its takeover-dependent default, threshold, level ---- *)
+From Gws Require Import Model.Negotiate.
+
+Definition opt_default (x d : Z) : Z := if x <=? 0 then d else x.
+
+Lemma gen_init_server_is p hs pg rb rmax wb wmax pool ic vc :
+  let '(_, rmax', pg', rb', wmax', wb', hs', s, c, th, lv, _) :=
+    gf_gws_initServerOption hs pg (cct p) (cmwb p) (enabled p) (level p) pool (sct p) (smwb p) (threshold p) rb rmax wb wmax ic vc in
+  mkPD (enabled p) (sct p) (cct p) s c th lv = norm_server p
+  /\ rmax' = opt_default rmax gws_defaultReadMaxPayloadSize /\ wmax' = opt_default wmax gws_defaultWriteMaxPayloadSize
+  /\ rb' = opt_default rb gws_defaultReadBufferSize /\ wb' = opt_default wb gws_defaultWriteBufferSize
+  /\ pg' = opt_default pg gws_defaultParallelGolimit /\ hs' = opt_default hs gws_defaultHandshakeTimeout.
+Proof.
+  unfold gf_gws_initServerOption, norm_server, opt_default. destruct p as [en s0 c0 sm cm th lv]. cbn [enabled sct cct smwb cmwb threshold level].
+  cbv zeta. destruct en; cbn [select_value];
+    repeat match goal with |- context [if ?c then _ else _] => destruct c end; repeat split; reflexivity.
+Qed.
+
+Lemma gen_init_client_is p hs pg rb rmax wb wmax pool ic vc :
+  let '(_, rmax', pg', rb', wmax', wb', hs', s, c, th, lv, pool') :=
+    gf_gws_initClientOption hs pg (cmwb p) (enabled p) (level p) pool (smwb p) (threshold p) rb rmax wb wmax ic vc in
+  mkPD (enabled p) (sct p) (cct p) s c th lv = norm_client p
+  /\ (enabled p = true -> pool' = 1)
+  /\ rmax' = opt_default rmax gws_defaultReadMaxPayloadSize /\ wmax' = opt_default wmax gws_defaultWriteMaxPayloadSize
+  /\ rb' = opt_default rb gws_defaultReadBufferSize /\ wb' = opt_default wb gws_defaultWriteBufferSize
+  /\ pg' = opt_default pg gws_defaultParallelGolimit /\ hs' = opt_default hs gws_defaultHandshakeTimeout.
+Proof.
+  unfold gf_gws_initClientOption, norm_client, opt_default. destruct p as [en s0 c0 sm cm th lv]. cbn [enabled sct cct smwb cmwb threshold level].
+  cbv zeta. destruct en;
+    repeat match goal with |- context [if ?c then _ else _] => destruct c end; repeat split; try reflexivity; try discriminate.
 Qed.
